@@ -20,7 +20,7 @@ var c01FloatLoopNotes = map[string]string{
 // exit tests compares an integer that the loop increments with a bound.
 func c01FloatLoops(c *core.Check) {
 	p := c.Prog
-	r := c.Rule("R21", "loops that advance a floating-point position are counted: every loop of the module whose exit conditions compare floating-point values also exits on an integer counter compared with a bound (a zero or absorbed float step, or an infinite limit, would otherwise never end), or is a named site", 5)
+	r := c.Rule("R21", "loops that advance a floating-point position are counted: every loop of the module whose exit conditions compare floating-point values also exits on an integer counter compared with a bound (a zero or absorbed float step, or an infinite limit, would otherwise never end), or is a named site", 3)
 	isFloat := func(t types.Type) bool {
 		b, ok := t.Underlying().(*types.Basic)
 		return ok && b.Info()&types.IsFloat != 0
